@@ -118,9 +118,10 @@ def handle (op : String) (args : List String) : Option String :=
       let divs ← parseNat divs
       let tab ← table? rest
       let S := { S with apod := apodOf tab }
-      pure (match pmCoincSimpson S divs ωs ωi with
-        | .ok z => cx z
-        | _ => "PANIC")
+      pure (match pmCoincSimpson S divs ωs ωi, simpson? divs with
+        | .ok z, some (nodes, scale) =>
+          cx z ++ " " ++ fl (0.5 * (quadAbsSum nodes (pmIntegrand S ωs ωi) * scale))
+        | _, _ => "PANIC")
     | [] => none
   | "jsa_raw" => do
     let (J, ωs, ωi, rest) ← jsetup? args
@@ -134,21 +135,23 @@ def handle (op : String) (args : List String) : Option String :=
         -- the quadrature is only reached inside the support
         if invalidFrequencies ωs ωi J.omegaP
             || pumpSpectralAmplitude (ωs + ωi) J.omegaP J.bandwidth < J.threshold then
-          pure (cx Cx.zero)
+          pure (cx Cx.zero ++ " " ++ fl 0.0)
         else pure "PANIC"
-      | some (nodes, scale) => pure (cx (jsaRaw J nodes scale ωs ωi))
+      | some (nodes, scale) =>
+        let a := pumpSpectralAmplitude (ωs + ωi) J.omegaP J.bandwidth
+        let sc : Float :=
+          if invalidFrequencies ωs ωi J.omegaP || a < J.threshold then 0.0
+          else a * (0.5 * (quadAbsSum nodes (pmIntegrand J.toSetup ωs ωi) * scale))
+        pure (cx (jsaRaw J nodes scale ωs ωi) ++ " " ++ fl sc)
     | [] => none
   | "jsa" => do
+    -- normalisation layer: `<30 tokens> rawre rawim` ⇒ jsa.re jsa.im jsi
     let (J, ωs, ωi, rest) ← jsetup? args
-    match rest with
-    | divs :: rest => do
-      let divs ← parseNat divs
-      let tab ← table? rest
-      let J : JSetup Float := { J with toSetup := { J.toSetup with apod := apodOf tab } }
-      let (nodes, scale) ← simpson? divs
-      pure (cx (jsaRaw J nodes scale ωs ωi) ++ " " ++ cx (jsa J nodes scale ωs ωi) ++ " "
-        ++ fl (jsi J nodes scale ωs ωi))
-    | [] => none
+    match ← rest.mapM parseFl with
+    | [rr, ri] =>
+      let r : Cx Float := ⟨rr, ri⟩
+      pure (cx (jsaOfRaw J ωs ωi r) ++ " " ++ fl (jsiOfRaw J ωs ωi r))
+    | _ => none
   | "norms" => do
     let (J, ωs, ωi, _) ← jsetup? args
     pure (fl (jsiNormalization J.normIn J.sig J.idl ωs ωi) ++ " "
@@ -164,6 +167,10 @@ def handle (op : String) (args : List String) : Option String :=
   | "invalid_freq" => do
     match ← args.mapM parseFl with
     | [ωs, ωi, ωp] => pure (if invalidFrequencies ωs ωi ωp then "1" else "0")
+    | _ => none
+  | "counts_corr" => do
+    match ← args.mapM parseFl with
+    | [lp, ls, li, ns, ni, np, ngs, ngi] => pure (fl (countsCorrection lp ls li ns ni np ngs ngi))
     | _ => none
   | "pm_consts" =>
     pure (fls [(cLight : Float), (eps0 : Float), (twoPi : Float), (Transc.pi : Float),
